@@ -320,6 +320,14 @@ def run(ctx: Context) -> None:
     others = [x for x in calls_in(rep.node) if call_name(x) == "register_runner_heartbeats" and x not in regs and rep is not runf]
     ok = len(regs) == 1 and not others
     ctx.add("R3", f"{base.qualname}::reports-exactly-the-alive-list", bool(ok), rep.loc(regs[0]) if regs else rep.loc(), "" if ok else "register_runner_heartbeats is not given exactly get_active_child_runner_ids()")
+    # inside the report, the write depends on nothing but "there are live children": every other condition on the path
+    # to it (elapsed time, a remembered set of already reported ids) lets a live child's stored heartbeat age
+    if regs and rep is not runf:
+        from ..flow import conditions_at
+
+        conds = conditions_at(func_cfg(repo, rep), rep.node, regs[0], parent_map(rep.node))
+        extra = [c_ for c_ in conds if not (names_in(c_) and names_in(c_) <= src) and not any(isinstance(x, ast.Call) and call_name(x) == "get_active_child_runner_ids" for x in ast.walk(c_))]
+        ctx.add("R3", f"{rep.qualname}::write-depends-only-on-live-children", not extra, rep.loc(regs[0]), "" if not extra else f"the heartbeat write is reached only when `{ast.unparse(extra[0])[:70]}`: between two writes the stored heartbeat of a live worker ages - with a period close to the dead-runner timeout a recovery scan in that gap takes the worker's RUNNING invocations")
     loops = [n for n in walk_no_nested(runf.node) if isinstance(n, ast.While)]
     ok = False
     for l in loops:
